@@ -9,7 +9,9 @@ For every class (and for the module-level `read_*` / `write_*` helper functions 
                    name starts with `read` / `_read`; writer methods likewise with `write`. A format that is a string
                    literal is given as it is; `"%dI" % n` is given with the count replaced by 1 (`1I`: one representative of
                    the repeated field); any other expression is given as `<source text>` (it does not parse as a format, so
-                   the class has to be listed by hand in Model/PayloadResaveTables.lean with exactly that text).
+                   the class has to be listed by hand in Model/PayloadResaveTables.lean with exactly that text). A local name
+                   (`fmt = ...; read_fmt(fmt, fp)`) is replaced by the expression last assigned to it; `self.` / `cls.` are
+                   dropped from the text.
                    A reader's fallback (`try: read_fmt("H2x") except IOError: ...; read_fmt("H")`) is one more entry of
                    its list, so such a class is one of the hand-listed asymmetric rows;
 * `frames`         (class, framing calls of the readers, framing calls of the writers): `read_length_block` /
@@ -48,6 +50,29 @@ POS = {
 }
 
 
+def _norm(text):
+    """source text of an expression, `self.` / `cls.` dropped (the reader is a classmethod, the writer a method)"""
+    return re.sub(r"\b(self|cls)\.", "", " ".join(text.split()))
+
+
+def _assignments(fn):
+    """name -> [(line, value node)] for the plain assignments `name = expr` of a function (nested functions included)"""
+    out = {}
+    for n in ast.walk(fn):
+        if isinstance(n, ast.Assign) and len(n.targets) == 1 and isinstance(n.targets[0], ast.Name):
+            out.setdefault(n.targets[0].id, []).append((n.lineno, n.value))
+    return out
+
+
+def _resolve(node, assigns, line, depth=0):
+    """a local name used as `fmt` / `padding` is replaced by the expression last assigned to it before the call"""
+    if isinstance(node, ast.Name) and node.id in assigns and depth < 3:
+        before = [(ln, v) for ln, v in assigns[node.id] if ln <= line]
+        if before:
+            return _resolve(max(before, key=lambda t: t[0])[1], assigns, line, depth + 1)
+    return node
+
+
 def _fmt_text(node):
     if node is None:
         return "<none>"
@@ -56,16 +81,16 @@ def _fmt_text(node):
     if isinstance(node, ast.BinOp) and isinstance(node.op, ast.Mod) and isinstance(node.left, ast.Constant) \
             and isinstance(node.left.value, str) and "%d" in node.left.value:
         return node.left.value.replace("%d", "1")
-    return "<" + " ".join(ast.unparse(node).split()) + ">"
+    return "<" + _norm(ast.unparse(node)) + ">"
 
 
-def _arg(call, name, kind):
+def _arg(call, name, kind, assigns):
     for k in call.keywords:
         if k.arg == name:
-            return " ".join(ast.unparse(k.value).split())
+            return _norm(ast.unparse(_resolve(k.value, assigns, call.lineno)))
     i = POS[kind].get(name)
     if i is not None and len(call.args) > i:
-        return " ".join(ast.unparse(call.args[i]).split())
+        return _norm(ast.unparse(_resolve(call.args[i], assigns, call.lineno)))
     d = DEFAULTS[kind][0 if name == "fmt" else 1]
     return d
 
@@ -74,21 +99,22 @@ def _scan(fns):
     """-> (formats, frames) of the given function nodes, in source order"""
     fm, fr = [], []
     for fn in fns:
+        assigns = _assignments(fn)
         for call in (n for n in ast.walk(fn) if isinstance(n, ast.Call)):
             name = getattr(call.func, "id", None) or getattr(call.func, "attr", None)
             pos = (call.lineno, call.col_offset)
             if name == "read_fmt":
                 a = call.args[0] if call.args else next((k.value for k in call.keywords if k.arg == "fmt"), None)
-                fm.append((pos, _fmt_text(a)))
+                fm.append((pos, _fmt_text(_resolve(a, assigns, call.lineno))))
             elif name == "write_fmt":
                 a = call.args[1] if len(call.args) > 1 else next((k.value for k in call.keywords if k.arg == "fmt"), None)
-                fm.append((pos, _fmt_text(a)))
+                fm.append((pos, _fmt_text(_resolve(a, assigns, call.lineno))))
             elif name in DEFAULTS:
                 kind = name.split("_", 1)[1]
                 parts = [kind]
                 if "fmt" in POS[name]:
-                    parts.append("fmt=" + str(_arg(call, "fmt", name)))
-                parts.append("padding=" + str(_arg(call, "padding", name)))
+                    parts.append("fmt=" + str(_arg(call, "fmt", name, assigns)))
+                parts.append("padding=" + str(_arg(call, "padding", name, assigns)))
                 fr.append((pos, " ".join(parts)))
     return [t for _, t in sorted(fm)], [t for _, t in sorted(fr)]
 
